@@ -68,20 +68,36 @@ def strip_comments(src):
     return ''.join(out)
 
 
-def lean_sources():
-    res = []
-    for d in ('ZodbModel', 'Proofs', 'Props', 'Drivers'):
-        p = os.path.join(LEAN, d)
-        for root, _, files in os.walk(p):
-            for f in sorted(files):
-                if f.endswith('.lean'):
-                    res.append(os.path.join(root, f))
-    return sorted(res)
+def module_path(mod):
+    return os.path.join(LEAN, *mod.split('.')) + '.lean'
 
 
-def sources_hash():
+def lean_sources(modules=None):
+    """Project-local source files: all of them, or the import closure of `modules`."""
+    if modules is None:
+        res = []
+        for d in ('ZodbModel', 'Proofs', 'Props', 'Drivers'):
+            for root, _, files in os.walk(os.path.join(LEAN, d)):
+                res += [os.path.join(root, f) for f in files if f.endswith('.lean')]
+        return sorted(res)
+    seen, todo = set(), list(modules)
+    while todo:
+        m = todo.pop()
+        p = module_path(m)
+        if m in seen or not os.path.exists(p):
+            continue
+        seen.add(m)
+        with open(p) as f:
+            for line in f:
+                mm = re.match(r'\s*(?:public\s+)?import\s+([A-Za-z0-9_.]+)', line)
+                if mm:
+                    todo.append(mm.group(1))
+    return sorted(module_path(m) for m in seen)
+
+
+def sources_hash(modules=None):
     h = hashlib.sha256()
-    for p in lean_sources():
+    for p in lean_sources(modules):
         h.update(p.encode())
         with open(p, 'rb') as f:
             h.update(f.read())
@@ -137,7 +153,7 @@ def lean_gate(pid, modules, namespaces, thorough=False):
             res['failures'].append('lake build failed: ' + ' | '.join(errs))
             res['build_log'] = log[-4000:]
         # source grep
-        for src in lean_sources():
+        for src in lean_sources(modules):
             with open(src) as f:
                 body = strip_comments(f.read())
             for ln, line in enumerate(body.splitlines(), 1):
@@ -175,7 +191,7 @@ def axiom_audit(pid, prop_modules, namespaces):
     """name -> list of axioms, for every theorem in the given namespaces (cached on source hash)."""
     adir = os.path.join(LEAN, '.lake', 'audit')
     os.makedirs(adir, exist_ok=True)
-    key = sources_hash()
+    key = sources_hash(prop_modules)
     cache = os.path.join(adir, pid + '.json')
     if os.path.exists(cache):
         try:
